@@ -32,6 +32,13 @@ CHECKS.update({
     technique='differential property-based testing (bundle vs. singles) with a strict reference decoder'),
 })
 
+CHECKS.update({
+ 'C14': dict(level='exploration', design='3/C14',
+    text='Generated call histories through pylogix (an independent client: Register, small/large Forward Open, Read, fragmented Read, Write, fragmented Write, multi-tag Read, failing members, Close) interleaved with raw unconnected and connected requests built and strictly decoded by the reference codec, against a real TCP simulator; values/statuses vs. the typed-array model, server Attributes vs. model after every call, forward-open table emptied after Close. Exploration only.',
+    note='Trusted: CPython, Hypothesis, pylogix 1.1.6, vp/refcodec.py, vp/model.py. Only types both sides support; services pylogix never emits are covered by the reference-codec requests.',
+    technique='property-based testing of client call histories (independent client + reference codec) against a reference model'),
+})
+
 PENDING = {}
 
 def main():
